@@ -204,5 +204,5 @@ fn c17_wq_rearm() {
 
 #[test]
 fn c17_wq_rearm_two_handles() {
-    rearm("c17_wq_rearm_two_handles", true, (1, 3));
+    rearm("c17_wq_rearm_two_handles", true, (2, 3));
 }
